@@ -13,20 +13,68 @@ def _meta_nontrivial(f):
 META_CLASS = {'meta': ['isEnded', 'isExpired', 'isTimedOut', 'onCooldown', 'shouldRefresh', 'validate', 'access', 'refresh', 'vActive', 'vCooldown', 'hasActive'],
               'mrefresh': ['secs', 'inact'], 'mnew': ['expiresIn', 'inact']}
 
+HIST_CLASS = {'hstep': ['mode', 'cfwd', 'op', 'ck', 'st', 'plan', 'status', 'fwd', 'upauth', 'contacted', 'granted', 'pst', 'idtok', 'autologin', 'ignored'],
+              'hafter': ['op', 'lstatus', 'deleted', 'status', 'upauth'], 'hstart': ['mode']}
+HIST_NT = {'hstep': lambda f: f.get('ck') != '0', 'hstart': lambda f: False}
+HIST_RULE = ("hist driver: seeded random histories (login, proxied request with forged headers, session info, manual refresh, forward-auth, three logout variants, "
+             "cookie/store tampering, provider answers ok/4xx/5xx/garbage, time shifts aimed at cooldown/leeway/expiry/timeout/end) over 135 configurations "
+             "(mode x forward-auth x inactivity x ACR x token lifetime); distinct = (mode, op, cookie state, store state, provider plan, status, forwarded, token written, provider contacted, post state); "
+             "non-trivial = a session cookie was presented. ")
+
+def _merge(*ds):
+    out = {}
+    for d in ds:
+        out.update(d)
+    return out
+
 PROPS = {
+    'C01': {
+        'proofs': ['Ww.Proofs.C01'],
+        'gen_sections': ['Meta', 'pkg/session/data.go'],
+        'drivers': [{'name': 'hist'}, {'name': 'meta'}],
+        'reasons': ['C01.'],
+        'class_fields': _merge(META_CLASS, HIST_CLASS),
+        'nontrivial': _merge({'meta': _meta_nontrivial}, HIST_NT),
+        'rule': HIST_RULE + "meta driver as for C08.",
+        'level_text': "Proof: soundness (a token reaches the upstream only for a decryptable ticket whose stored session is live, unexpired, of sufficient ACR, and it is that session's current token, "
+                      "also right after an automatic refresh), completeness (such a session always gets its token set, replacing client values) and the no-session corollary are Lean theorems about the "
+                      "handler model for EVERY cookie/store state, provider answer, configuration and clock value; the time predicates inside are regenerated from data.go on each run; the hand-written "
+                      "handler model is tied to the real handlers by per-step differential histories in all three modes, and the Spec is evaluated on every implementation step.",
+        'level_note': "Trusted: Lean kernel; AEAD authenticity (a ciphertext that decrypts under a key was produced under it); one clock reading per request; httputil.ReverseProxy header handling "
+                      "(exercised with forged / hop-by-hop headers); hand-written model of session_manager/reverseproxy tied only by differential runs.",
+        'technique': 'Lean 4 proof over handler model (decision logic) + regenerated time predicates + differential histories',
+        'trusted': ["H-AEAD, H-CLOCK; Ww.Model.Sys hand-written from session_reader.go/session_manager.go/reverseproxy.go/handler.go, tied by the hist driver"],
+        'assumptions': ["H-AEAD", "H-CLOCK"],
+    },
+    'C06': {
+        'proofs': ['Ww.Proofs.C06'],
+        'gen_sections': ['Meta', 'pkg/session/data.go'],
+        'drivers': [{'name': 'hist'}, {'name': 'meta'}],
+        'reasons': ['C06.'],
+        'class_fields': _merge(META_CLASS, HIST_CLASS),
+        'nontrivial': _merge({'meta': _meta_nontrivial}, HIST_NT),
+        'rule': HIST_RULE + "meta driver as for C08 (includes Refresh/WithTimeout/NewMetadata mutators).",
+        'level_text': "Proof: Inv (end = creation + max lifetime; timeout = last refresh + inactivity; token never outlives the timeout) is established by login and preserved by every handler step, "
+                      "lifted by induction over arbitrary event lists (login/proxy/manual refresh/forward-auth/info/logout/clock movement); accepted => within lifetime and within inactivity timeout; "
+                      "ended => 401 on session endpoints; inactive => readable as inactive, not refreshable; provider never contacted for a dead session. Metadata functions regenerated from data.go.",
+        'level_note': "Trusted: Lean kernel; translator (validated by the synctest grid each run); hand-written handler model tied by differential histories with time shifting; H-CLOCK; store TTL behaviour is C10.",
+        'technique': 'Lean 4 inductive invariant over event histories + regenerated metadata functions + differential histories with time shifting',
+        'trusted': ["H-CLOCK; time shifting = moving stored timestamps back and fast-forwarding the store (observationally a clock advance)"],
+        'assumptions': ["H-CLOCK", "H-AEAD"],
+    },
     'C08': {
         'proofs': ['Ww.Proofs.C08'],
         'gen_sections': ['Meta', 'Consts', 'pkg/session/data.go'],
-        'drivers': [{'name': 'meta'}],
+        'drivers': [{'name': 'meta'}, {'name': 'hist'}],
         'reasons': ['C08.'],
-        'class_fields': META_CLASS,
-        'nontrivial': {'meta': _meta_nontrivial},
-        'rule': "meta driver: boundary grid {refreshed,cooldown,half-life,expiry-5min,expiry,timeout,end} x {-1s,-1ns,0,+1ns,+1s} x 14 token lifetimes x 5 inactivity "
+        'class_fields': _merge(META_CLASS, HIST_CLASS),
+        'nontrivial': _merge({'meta': _meta_nontrivial}, HIST_NT),
+        'rule': HIST_RULE + "meta driver: boundary grid {refreshed,cooldown,half-life,expiry-5min,expiry,timeout,end} x {-1s,-1ns,0,+1ns,+1s} x 14 token lifetimes x 5 inactivity "
                 "settings x 4 session ages, plus seeded random placements; distinct = distinct vector of predicate results; non-trivial = at least one predicate true",
         'level_text': "Proof: the refresh-schedule rules (refresh once expired, never during cooldown, never before expiry-5min / half-life, cooldown <= 1 min and never outlasting the token, "
                       "refresh opportunity before expiry, metadata endpoint fields) are Lean theorems, for every metadata record and every clock value, over definitions that are machine-translated from "
                       "pkg/session/data.go on each run; the translation is validated on a synctest boundary grid and the Spec is evaluated on the implementation's own answers.",
-        'level_note': "Trusted: Lean kernel, the data.go translator (validated differentially every run), one clock reading per method (H-CLOCK), no int64 overflow. Mode wiring (which handlers may refresh) is checked by the handler-level drivers, see DESIGN.",
+        'level_note': "Trusted: Lean kernel, the data.go translator (validated differentially every run), one clock reading per method (H-CLOCK), no int64 overflow. Mode rules, 'never' rules and idempotence are theorems over the hand-written handler model (Ww.Model.Sys), tied by the hist driver.",
         'technique': 'Lean 4 proof (omega/simp over Int) on definitions regenerated from data.go + synctest differential grid',
         'trusted': ["H-CLOCK: one clock reading per method evaluation; no int64 overflow; float64 Duration.Seconds() modelled as truncating division"],
         'assumptions': ["H-CLOCK", "Go time.Time/Duration arithmetic modelled as unbounded Int nanoseconds (translator rule, validated by the synctest grid)"],
